@@ -85,6 +85,13 @@ class Translator:
         pos = list(e.args)
         if any(isinstance(a, ast.Starred) for a in pos) or any(k.arg is None for k in e.keywords):
             raise Unsupported("* / ** in call")
+        if (isinstance(f, ast.Name) and f.id in ("all", "any", "tuple", "list") and len(pos) == 1
+                and not e.keywords and isinstance(pos[0], ast.GeneratorExp)):
+            g = pos[0]
+            if f.id in ("all", "any"):
+                return self.comp("CAll" if f.id == "all" else "CAny", g.generators, g.elt)
+            # tuple(...) / list(...) consume the whole generator: a list comprehension
+            return "(ECall %s %s)" % (cstr(f.id), lst([self.comp("CList", g.generators, g.elt)]))
         suffix = "".join(",%s=" % k.arg for k in e.keywords)
         if isinstance(f, ast.Name) and f.id == "isinstance":
             args = []
@@ -105,8 +112,25 @@ class Translator:
             return "(ECall %s %s)" % (cstr("meth:" + f.attr + suffix), lst([self.expr(f.value)] + args))
         raise Unsupported("callee " + ast.dump(f)[:100])
 
+    def comp(self, kind, generators, elt):
+        """[elt for x in it] / all(elt for x in it) / any(elt for x in it); several `for` clauses only for
+        all / any, where any(e for i in A for j in B) is any(any(e for j in B) for i in A) (same order of
+        evaluation, same laziness)"""
+        g = generators[0]
+        if g.ifs or g.is_async or not isinstance(g.target, ast.Name):
+            raise Unsupported("comprehension form")
+        if len(generators) > 1:
+            if kind == "CList":
+                raise Unsupported("list comprehension with several for clauses")
+            body = self.comp(kind, generators[1:], elt)
+        else:
+            body = self.expr(elt)
+        return "(EComp %s %s %s %s)" % (kind, cstr(g.target.id), self.expr(g.iter), body)
+
     def expr(self, e):
         expr = self.expr
+        if isinstance(e, ast.ListComp):
+            return self.comp("CList", e.generators, e.elt)
         if isinstance(e, ast.Name):
             if e.id in self.modules:
                 raise Unsupported("module %s used as a value" % e.id)
